@@ -3,14 +3,14 @@ from _helpers import rapid, direct, fuzz
 PROPS = {
     "C06": dict(pkg="walletf", level="exploration", stages=[
         direct("claim-routing", "TestC06ClaimRouting"),
-        rapid("payouts", "TestC06Payouts", dict(shards=8, checks=250, timeout=900), dict(shards=16, checks=3000, timeout=6000)),
-        rapid("minerpayouts", "TestC06MinerPayouts", dict(shards=8, checks=200, timeout=900), dict(shards=16, checks=2000, timeout=6000)),
-        rapid("v2payouts", "TestC06V2Payouts", dict(shards=8, checks=250, timeout=900), dict(shards=16, checks=3000, timeout=6000)),
-        rapid("rapid", "TestC06", dict(shards=16, checks=350, timeout=900), dict(shards=16, checks=3000, timeout=6000)),
+        rapid("payouts", "TestC06Payouts", dict(shards=8, checks=150, timeout=900), dict(shards=16, checks=3000, timeout=6000)),
+        rapid("minerpayouts", "TestC06MinerPayouts", dict(shards=8, checks=150, timeout=900), dict(shards=16, checks=2000, timeout=6000)),
+        rapid("v2payouts", "TestC06V2Payouts", dict(shards=8, checks=150, timeout=900), dict(shards=16, checks=3000, timeout=6000)),
+        rapid("rapid", "TestC06", dict(shards=16, checks=300, timeout=900), dict(shards=16, checks=3000, timeout=6000)),
     ]),
     "C07": dict(pkg="walletf", level="exploration", stages=[
         rapid("rapid", "TestC07", dict(shards=16, checks=800, timeout=900), dict(shards=16, checks=6000, timeout=6000)),
-        rapid("concurrent", "TestC07Concurrent", dict(shards=16, checks=300, timeout=900), dict(shards=16, checks=2000, timeout=6000)),
+        rapid("concurrent", "TestC07Concurrent", dict(shards=16, checks=200, timeout=900), dict(shards=16, checks=2000, timeout=6000)),
         rapid("concurrent-race", "TestC07Concurrent", dict(shards=4, checks=20), dict(shards=16, checks=200, timeout=6000),
               tiers=["thorough"], race=True),
     ]),
